@@ -61,18 +61,25 @@ theorem unprefix_of_no_colon (h : Str) (hc : ':' ∉ h) : unprefix .asCoded h = 
   unfold unprefix
   simp [UFacts.asCoded, (afterLastColon_none_iff h).mpr hc]
 
-/-- Calling `UnprefixedHashes` again on its own (aliased) result changes nothing: the in-place overwrite of
-    `target.Hashes` does not alter later verification decisions. -/
+/-- Unprefixing is idempotent: verifying again — in particular on a list that an aliasing `UnprefixedHashes` had
+    overwritten in place — gives the same decision. -/
 theorem unprefix_idem (h : Str) : unprefix .asCoded (unprefix .asCoded h) = unprefix .asCoded h := by
   by_cases hc : ':' ∈ h
   · exact unprefix_of_no_colon _ (unprefix_no_colon h hc)
   · rw [unprefix_of_no_colon h hc, unprefix_of_no_colon h hc]
 
-theorem unprefixedHashes_idem (hs : List Str) :
-    (unprefixedHashes .asCoded (unprefixedHashes .asCoded hs).2).1 = (unprefixedHashes .asCoded hs).1 := by
-  simp [unprefixedHashes, UFacts.asCoded, List.map_map, Function.comp_def]
-  intro a _
-  exact unprefix_idem a
+/-- `unprefix` does not look at the aliasing fact. -/
+theorem unprefix_alias_irrel (f : UFacts) (b : Bool) (h : Str) : unprefix { f with alias := b } h = unprefix f h := rfl
+
+theorem unprefixedHashes_idem (b : Bool) (hs : List Str) :
+    (unprefixedHashes { UFacts.asCoded with alias := b } (unprefixedHashes { UFacts.asCoded with alias := b } hs).2).1 =
+      (unprefixedHashes { UFacts.asCoded with alias := b } hs).1 := by
+  cases b
+  · simp [unprefixedHashes, UFacts.asCoded]
+  · simp only [unprefixedHashes, UFacts.asCoded, if_true, List.map_map]
+    apply List.map_congr_left
+    intro a _
+    exact unprefix_idem a
 
 theorem dropWhile_all {p : Char → Bool} (ws v : Str) (h : ∀ c ∈ ws, p c = true) :
     (ws ++ v).dropWhile p = v.dropWhile p := by
